@@ -443,3 +443,10 @@ def pc_status(pc, timeout_ms=1500):
     if r == z3.sat and nq == 0:
         return "sat"
     return "unknown"  # quantifier-free part satisfiable; the quantified hypotheses are covered by the finite-scope guard
+
+
+def full_pc_unsat(pc, timeout_ms=700):
+    s = z3.Solver()
+    s.set(timeout=timeout_ms)
+    s.add(*pc)
+    return s.check() == z3.unsat
